@@ -979,17 +979,58 @@ pub fn io_pressure(rng: &mut Rng) -> String {
             }
         }
     };
+    // products of pairs of cells into fresh cells, all operands alive at once
+    let n_prod = if rng.chance(1, 2) { rng.urange(2, 10) } else { 0 };
+    let prod_base = k + 3;
+    let products = |a: &mut Asm, rng: &mut Rng| {
+        for n in 0..n_prod {
+            let x = rng.range(0, k - 1);
+            let mut y = rng.range(0, k - 2);
+            if y >= x {
+                y += 1;
+            }
+            let z = prod_base + n as i64;
+            let t = k + 2;
+            // z += x * y, x and y preserved (x via scratch2, y via t)
+            let sx = prod_base + n_prod as i64 + 1;
+            a.while_(x, |a| {
+                a.while_(y, |a| {
+                    a.add(z, 1);
+                    a.add(t, 1);
+                    a.add(y, -1);
+                });
+                a.while_(t, |a| {
+                    a.add(y, 1);
+                    a.add(t, -1);
+                });
+                a.add(sx, 1);
+                a.add(x, -1);
+            });
+            a.while_(sx, |a| {
+                a.add(x, 1);
+                a.add(sx, -1);
+            });
+            if rng.chance(1, 3) {
+                a.output(z);
+            }
+        }
+    };
     if in_loop {
         a.input(counter);
         a.while_(counter, |a| {
             body(a, rng);
+            products(a, rng);
             a.add(counter, -1);
         });
     } else {
         body(&mut a, rng);
+        products(&mut a, rng);
     }
     for c in 0..k {
         a.output(c);
+    }
+    for n in 0..n_prod {
+        a.output(prod_base + n as i64);
     }
     a.out
 }
